@@ -186,6 +186,9 @@ def plan_C18(p, tier, seed):
     p.add(BoundedUnit("bounded.C18/att2idx-att2name", bounded.att_names, (tier, seed), props=("C18",)))
     from . import difftest
     p.add(BoundedUnit("engine-guard/difftest", difftest.difftest_unit, (tier, seed), props=("C18",)))
+    from . import lemmas_misc as _lm
+    u = p.add(CustomUnit("text-codec", _lm.text_codec_unit, (), props=(p.prop,)))
+    p.replayers[u.name] = _lm.replay_text_codec
     p.min_obligations = 300
     p.instances = {"type_constants": len(types)}
     p.exhaustive = True
@@ -624,6 +627,9 @@ def plan_C03(p, tier, seed):
     p.add(BoundedUnit("bounded.C03/keyword-build-parse", bounded.kw_end_to_end, (tier, seed), props=("C03",)))
     p.instances = {"keyword_instance_units": n}
     p.exhaustive = True
+    from . import lemmas_misc as _lm
+    u = p.add(CustomUnit("text-codec", _lm.text_codec_unit, (), props=(p.prop,)))
+    p.replayers[u.name] = _lm.replay_text_codec
     p.min_obligations = 4000
     p.trusted_base += [T_INSTANCE, T_KW, "contracts/oracle.py"]
     from . import instance as inst
